@@ -14,6 +14,8 @@ Decided (structural):
    (finite check against the struct's typed fields; DistinctFd2.y excepted with reason);
    SMap::operands / get_vars: every key unconditionally, every value exactly when it is a variable
    - this is what constraints() / relevant() report per variable.
+ (round 5, shared with C20) walk* of compound values resolves every field deeply (library impls and
+   derive templates); is_constrained() <=> constraints() non-empty.
 """
 import streams
 import sym
@@ -149,6 +151,13 @@ def check_lresult(ctx, lib, rule):
         return
     t = sym.Evaluator(lib).fn_term(fn)
     ctx.expect(unify(pat("relevant(@0.1, anyvars(@0.0))"), tables.result(t)) is not None, rule, fn["npath"] + "|relevant-anyvars", site_of(fn), "constraints() must be store.relevant(self.0.anyvars()); found %s" % show(t, maxdepth=4))
+    fc = lib.fn("crate::lresult::LResult::is_constrained")
+    if fc is not None:
+        ctx.fn_seen(fc["npath"])
+        tc = tables.result(sym.Evaluator(lib, inline=lambda p_, f_: False).fn_term(fc))
+        okc = tc[0] == "call" and suffix_match(tc[1], "any") and tc[2][0][0] == "call" and suffix_match(tc[2][0][1], "LResult::constraints") and tc[2][1][0] == "closure" and tables.result(tc[2][1][3]) == ("lit", "Bool(true)")
+        okc = okc or (tc[0] == "unop" and tc[1] == "Not" and "constraints" in str(tc) and "is_none" in str(tc))
+        ctx.expect(okc, rule, fc["npath"] + "|iff-some-constraint", site_of(fc), "is_constrained() is true exactly when constraints() yields something; found %s" % show(tc, maxdepth=4)[:120])
     fn = streams.getfn(ctx, lib, rule, "crate::state::constraint::store::ConstraintStore::relevant")
     if fn:
         t = sym.Evaluator(lib).fn_term(fn)
@@ -290,3 +299,15 @@ def run(ctx, fb, cfg):
     import fdrules
 
     fdrules.check_operands(ctx, lib, R + "K10.operands-complete")
+    # "no answer term contains a bound variable ... including compound sub-terms": walk* of compound values
+    # (library impls and derive templates) resolves every field deeply (shared with C20)
+    import C15
+    import C20
+
+    C20.check_library(C15._Prefixed(ctx, "C03"), lib)
+    if cfg == "lib-default":
+        import macrolib
+
+        S = macrolib.load_sem(ctx, fb)
+        if S is not None:
+            C20.check_derive(C15._Prefixed(ctx, "C03"), S)
